@@ -125,6 +125,9 @@ pub const KINDS: &[&str] = &[
     "reverse-chain",
     "drop-oldest-secret",
     "secret-from-other-key",
+    "no-rights",
+    "no-rights-unsigned",
+    "all-chains-empty",
 ];
 
 fn strategy() -> impl Strategy<Value = ForgeCase> {
@@ -152,6 +155,17 @@ pub fn forge(fx: &Fixture, c: &ForgeCase) -> Option<(Vec<u8>, &'static str)> {
                 return None;
             }
             w.rights.remove(a % nr);
+        }
+        // a key without any right (every issued key holds at least the broadcast right)
+        "no-rights" => w.rights.clear(),
+        "no-rights-unsigned" => {
+            w.rights.clear();
+            w.signature = None;
+        }
+        "all-chains-empty" => {
+            for (_, chain) in w.rights.iter_mut() {
+                chain.clear();
+            }
         }
         "rename-right" => {
             let i = a % nr;
